@@ -27,7 +27,9 @@ import (
 	"testing"
 	"time"
 
+	"cosmossdk.io/log"
 	"cosmossdk.io/math"
+	"cosmossdk.io/x/feegrant"
 	wasmvmtypes "github.com/CosmWasm/wasmvm/v2/types"
 	codectypes "github.com/cosmos/cosmos-sdk/codec/types"
 	"github.com/cosmos/cosmos-sdk/crypto/keys/ed25519"
@@ -37,16 +39,20 @@ import (
 	"github.com/onsi/ginkgo/v2"
 	xchain "github.com/palomachain/paloma/v2/internal/x-chain"
 	"github.com/palomachain/paloma/v2/tests/integration/helper"
+	"github.com/palomachain/paloma/v2/util/libwasm"
 	"github.com/palomachain/paloma/v2/verifharness/emit"
 	consensustypes "github.com/palomachain/paloma/v2/x/consensus/types"
 	evmkeeper "github.com/palomachain/paloma/v2/x/evm/keeper"
 	evmtypes "github.com/palomachain/paloma/v2/x/evm/types"
+	palomamodule "github.com/palomachain/paloma/v2/x/paloma"
+	schedmodule "github.com/palomachain/paloma/v2/x/scheduler"
 	"github.com/palomachain/paloma/v2/x/scheduler/bindings"
 	bindingstypes "github.com/palomachain/paloma/v2/x/scheduler/bindings/types"
 	schedkeeper "github.com/palomachain/paloma/v2/x/scheduler/keeper"
 	schedtypes "github.com/palomachain/paloma/v2/x/scheduler/types"
 	treasurytypes "github.com/palomachain/paloma/v2/x/treasury/types"
 	valsettypes "github.com/palomachain/paloma/v2/x/valset/types"
+	protov2 "google.golang.org/protobuf/proto"
 )
 
 // ---------------------------------------------------------------------------------------------
@@ -64,8 +70,19 @@ type jobSpec struct {
 }
 
 type opSpec struct {
-	Kind string `json:"kind"` // create | exec | resnap
+	Kind string `json:"kind"` // create | exec | resnap | genesis | block
 	Path string `json:"path"` // msg | wasm | legacy | keeper
+	// resnap: build the new snapshot with the snapshot listeners on (the evm keeper publishes it to the chains)
+	Listeners bool `json:"listeners,omitempty"`
+	// resnap: let 31 days pass first (the listener does not publish to a chain whose valset is younger than 30 days)
+	Age bool `json:"age,omitempty"`
+	// msg path (create and exec): the transaction's signer if it is not the creator (hex), whether the creator
+	// granted that signer a fee allowance, and (exec) whether the creator is left without an account
+	Signer    string `json:"signer,omitempty"`
+	Granted   bool   `json:"granted,omitempty"`
+	NoAccount bool   `json:"no_account,omitempty"`
+	// wasm / legacy exec: the "sender" member of the message body (any string; "" = member absent for legacy)
+	Claimed string `json:"claimed,omitempty"`
 	// create
 	Job     *jobSpec `json:"job,omitempty"`
 	Creator string   `json:"creator,omitempty"` // hex of the creator / owner address
@@ -108,12 +125,14 @@ type env struct {
 	ctx    sdk.Context
 	k      schedkeeper.Keeper
 	ms     schedtypes.MsgServer
-	wasm   interface {
-		DispatchMsg(sdk.Context, sdk.AccAddress, string, bindingstypes.Message) ([]sdk.Event, [][]byte, [][]*codectypes.Any, error)
-	}
-	legacy interface {
+	// the libwasm router in front of the scheduler's two messengers, as app.go builds it: what a contract's
+	// custom message really goes through
+	router interface {
 		DispatchMsg(sdk.Context, sdk.AccAddress, string, wasmvmtypes.CosmosMsg) ([]sdk.Event, [][]byte, [][]*codectypes.Any, error)
 	}
+	ante   palomamodule.VerifyAuthorisedSignatureDecorator
+	grants *fakeGrants
+	am     schedmodule.AppModule
 	vals  []sdk.ValAddress
 	valID map[string]int64
 	nextV int
@@ -202,9 +221,86 @@ func newEnv(es envSpec) (*env, error) {
 	}
 	e.ctx = ctx
 	e.ms = schedkeeper.NewMsgServerImpl(e.k)
-	e.wasm = bindings.NewMessenger(e.k, e.ms)
-	e.legacy = bindings.NewLegacyMessenger(e.k)
+	e.router = libwasm.NewRouterMessageDecorator(log.NewNopLogger(), bindings.NewLegacyMessenger(e.k), bindings.NewMessenger(e.k, e.ms), nil, nil)(nil)
+	e.grants = &fakeGrants{by: map[string][]string{}}
+	e.ante = palomamodule.NewVerifyAuthorisedSignatureDecorator(e.grants)
+	e.am = schedmodule.NewAppModule(f.Codec, e.k, nil, nil)
 	return e, nil
+}
+
+// fakeGrants: the fee-grant keeper as far as the ante decorator uses it (AllowancesByGranter).
+type fakeGrants struct{ by map[string][]string }
+
+func (g *fakeGrants) AllowancesByGranter(_ context.Context, req *feegrant.QueryAllowancesByGranterRequest) (*feegrant.QueryAllowancesByGranterResponse, error) {
+	out := &feegrant.QueryAllowancesByGranterResponse{}
+	for _, ge := range g.by[req.Granter] {
+		out.Allowances = append(out.Allowances, &feegrant.Grant{Granter: req.Granter, Grantee: ge})
+	}
+	return out, nil
+}
+
+func (g *fakeGrants) GrantAllowance(_ context.Context, granter, grantee sdk.AccAddress, _ feegrant.FeeAllowanceI) error {
+	g.by[granter.String()] = append(g.by[granter.String()], grantee.String())
+	return nil
+}
+
+type fakeTx struct{ msgs []sdk.Msg }
+
+func (f fakeTx) GetMsgs() []sdk.Msg                    { return f.msgs }
+func (f fakeTx) GetMsgsV2() ([]protov2.Message, error) { return nil, nil }
+
+// admit: what stands between a signed transaction message and the msg server on the chain:
+// ValidateBasic (baseapp) and the VerifyAuthorisedSignatureDecorator of the ante chain.
+func (e *env) admit(ctx sdk.Context, msg sdk.Msg) (err error) {
+	defer func() {
+		if r := recover(); r != nil {
+			err = fmt.Errorf("refused (panic): %v", r)
+		}
+	}()
+	if vb, ok := msg.(interface{ ValidateBasic() error }); ok {
+		if err := vb.ValidateBasic(); err != nil {
+			return err
+		}
+	}
+	reached := false
+	if _, err := e.ante.AnteHandle(ctx, fakeTx{[]sdk.Msg{msg}}, false, func(c sdk.Context, _ sdk.Tx, _ bool) (sdk.Context, error) {
+		reached = true
+		return c, nil
+	}); err != nil {
+		return err
+	}
+	if !reached {
+		return errors.New("ante chain stopped")
+	}
+	return nil
+}
+
+// metadata of a transaction message: creator, and who signed
+func (e *env) metadata(creator []byte, op *opSpec) (valsettypes.MsgMetadata, []byte) {
+	signer := creator
+	if op.Signer != "" {
+		signer = unhex(op.Signer)
+		if op.Granted && len(creator) > 0 && len(signer) > 0 {
+			_ = e.grants.GrantAllowance(e.ctx, creator, signer, nil)
+		}
+	}
+	return valsettypes.MsgMetadata{Creator: sdk.AccAddress(creator).String(), Signers: []string{sdk.AccAddress(signer).String()}}, signer
+}
+
+// authorisedBy: the independent reading of "the creator stands behind this transaction".
+func (e *env) authorisedBy(creator, signer []byte) bool {
+	if len(creator) == 0 || len(signer) == 0 {
+		return false
+	}
+	if string(creator) == string(signer) {
+		return true
+	}
+	for _, ge := range e.grants.by[sdk.AccAddress(creator).String()] {
+		if ge == sdk.AccAddress(signer).String() {
+			return true
+		}
+	}
+	return false
 }
 
 func (e *env) ensureAccount(ctx sdk.Context, a sdk.AccAddress) {
@@ -217,13 +313,18 @@ func (e *env) ensureAccount(ctx sdk.Context, a sdk.AccAddress) {
 // resnap: one more bonded validator, new snapshot built with the listeners switched off (so the
 // snapshot is current but not yet announced to the chains: the next job run triggers the
 // just-in-time valset update of PreJobExecution).
-func (e *env) resnap() error {
+func (e *env) resnap(listeners, age bool) error {
+	if age {
+		e.ctx = e.ctx.WithBlockTime(e.ctx.BlockTime().Add(31 * 24 * time.Hour))
+	}
 	if err := e.addValidator(e.ctx, e.nextV, false, true, true); err != nil {
 		return err
 	}
 	e.nextV++
 	ls := e.f.ValsetKeeper.SnapshotListeners
-	e.f.ValsetKeeper.SnapshotListeners = nil
+	if !listeners {
+		e.f.ValsetKeeper.SnapshotListeners = nil
+	}
 	_, err := e.f.ValsetKeeper.TriggerSnapshotBuild(e.ctx)
 	e.f.ValsetKeeper.SnapshotListeners = ls
 	e.f.MetrixKeeper.UpdateUptime(e.ctx)
@@ -241,6 +342,42 @@ type qitem struct {
 	call  *evmtypes.SubmitLogicCall
 	msg   *evmtypes.Message
 	kind  string // call | valset | other
+	vid   uint64 // valset: Valset.ValsetID
+	key   string
+}
+
+// ordered: the live content of all turnstone queues in the order of the consensus keeper's global message counter
+func ordered(m map[string]*qitem) []*qitem {
+	out := make([]*qitem, 0, len(m))
+	for _, v := range m {
+		out = append(out, v)
+	}
+	sort.Slice(out, func(i, j int) bool { return out[i].id < out[j].id })
+	return out
+}
+
+// diff: positions (in the ordered previous content) of the messages that disappeared, and the new messages in id order
+func diff(before, after map[string]*qitem) (removed []*qitem, pos []int, added []*qitem) {
+	for i, it := range ordered(before) {
+		if _, ok := after[it.key]; !ok {
+			pos = append(pos, i)
+			removed = append(removed, it)
+		}
+	}
+	for _, it := range ordered(after) {
+		if _, ok := before[it.key]; !ok {
+			added = append(added, it)
+		}
+	}
+	return
+}
+
+func coqPos(pos []int) string {
+	var t []string
+	for _, p := range pos {
+		t = append(t, emit.ZI(int64(p)))
+	}
+	return emit.List(t)
 }
 
 func queueName(ref string) string {
@@ -274,8 +411,12 @@ func (e *env) readQueues(ctx sdk.Context) (map[string]*qitem, error) {
 				it.kind, it.call = "call", a.SubmitLogicCall
 			case *evmtypes.Message_UpdateValset:
 				it.kind = "valset"
+				if a.UpdateValset != nil && a.UpdateValset.Valset != nil {
+					it.vid = a.UpdateValset.Valset.ValsetID
+				}
 			}
-			out[fmt.Sprintf("%d/%d", c, m.GetId())] = it
+			it.key = fmt.Sprintf("%d/%d", c, m.GetId())
+			out[it.key] = it
 		}
 	}
 	return out, nil
@@ -360,7 +501,7 @@ func coqJob(j *schedtypes.Job) string {
 func (e *env) coqItem(it *qitem) string {
 	switch it.kind {
 	case "valset":
-		return "(QValset " + cs(chainRefs[it.chain]) + ")"
+		return "(QValset " + cs(it.msg.ChainReferenceID) + " " + cs(it.msg.TurnstoneID) + " " + emit.ZU(it.vid) + ")"
 	case "call":
 		a, ok := e.valID[it.msg.Assignee]
 		if !ok {
@@ -371,7 +512,7 @@ func (e *env) coqItem(it *qitem) string {
 			cb(c.Abi), cb(c.Payload), cob(c.SenderAddress, c.SenderAddress == nil), cob(c.ContractAddress, c.ContractAddress == nil),
 			emit.Bool(c.ExecutionRequirements.EnforceMEVRelay), emit.ZI(a))
 	}
-	return "(QValset [0%Z])" // an unexpected message kind: never equal to anything the model produces
+	return "(QValset [0%Z] [] 0)" // an unexpected message kind: never equal to anything the model produces
 }
 
 // ---------------------------------------------------------------------------------------------
@@ -385,6 +526,9 @@ func classify(err error) string {
 	var se *json.SyntaxError
 	var te *json.UnmarshalTypeError
 	s := err.Error()
+	if strings.HasPrefix(s, "unauthorised:") {
+		return "(Err EUnauthorised)"
+	}
 	switch {
 	case errors.Is(err, schedtypes.ErrJobNotFound):
 		return "(Err ENotFound)"
@@ -400,6 +544,8 @@ func classify(err error) string {
 		return "(Err EPad)"
 	case strings.Contains(s, "invalid job id"), strings.Contains(s, "missing payload"), strings.Contains(s, "you must provide a jobID"):
 		return "(Err EWasmInvalid)"
+	case strings.Contains(s, "panic"):
+		return "(Err EPanic)"
 	}
 	return "other:" + s
 }
@@ -487,12 +633,64 @@ func runHistory(run *emit.Run, hs *histSpec, tag string) (res *histResult, fatal
 	var order []string
 	var steps []string
 	okOps, errOps := 0, 0
+	idsTerm := func() string {
+		var t []string
+		for _, id := range order {
+			t = append(t, cs(id))
+		}
+		return emit.List(t)
+	}
+	itemsTerm := func(items []*qitem) string {
+		var t []string
+		for _, it := range items {
+			t = append(t, e.coqItem(it))
+		}
+		return emit.List(t)
+	}
 
+	calls := map[string]string{} // every logic call ever seen: key -> raw
+	// invariants of the live queues, and: calls never disappear or change
+	checkQueues := func(after map[string]*qitem, when string) {
+		nvs := map[int]int{}
+		for k, it := range after {
+			switch it.kind {
+			case "call":
+				if old, ok := calls[k]; ok && old != it.raw {
+					violate("C17:call-changed", fmt.Sprintf("queued call %s changed %s", k, when))
+				}
+				calls[k] = it.raw
+			case "valset":
+				nvs[it.chain]++
+			}
+			if it.msg.TurnstoneID != turnstones[it.chain] || it.msg.ChainReferenceID != chainRefs[it.chain] {
+				violate("C17:queue-message-of-other-chain", fmt.Sprintf("message %s in the queue of %s names chain %q turnstone %q", k, chainRefs[it.chain], it.msg.ChainReferenceID, it.msg.TurnstoneID))
+			}
+		}
+		for c, n := range nvs {
+			if n > 1 {
+				violate("C17:two-valset-updates", fmt.Sprintf("%d valset updates in the queue of %s %s", n, chainRefs[c], when))
+			}
+		}
+		for k := range calls {
+			if _, ok := after[k]; !ok {
+				violate("C17:call-removed", fmt.Sprintf("queued call %s disappeared %s", k, when))
+			}
+		}
+	}
+
+	// ----- the queue content left by the environment's setup, as publications of the snapshot listener -----
 	seen, err := e.readQueues(e.ctx)
 	if err != nil {
 		return nil, err
 	}
-	calls := map[string]string{} // every logic call ever seen: key -> raw
+	for _, it := range ordered(seen) {
+		if it.kind != "valset" {
+			return nil, fmt.Errorf("setup left a %s message in a turnstone queue", it.kind)
+		}
+		steps = append(steps, fmt.Sprintf("(OPublish %s (Some %s), Ok, [], %s, [])", cs(chainRefs[it.chain]), emit.ZU(it.vid), itemsTerm([]*qitem{it})))
+		run.Count("op", "publish-at-setup")
+	}
+	checkQueues(seen, "after setup")
 
 	checkJobs := func(when string) {
 		for id, c := range jobs {
@@ -509,17 +707,129 @@ func runHistory(run *emit.Run, hs *histSpec, tag string) (res *histResult, fatal
 	}
 
 	for oi, op := range hs.Ops {
+		op := op
 		when := fmt.Sprintf("after op %d (%s/%s)", oi, op.Kind, op.Path)
 		switch op.Kind {
 		case "resnap":
-			if err := e.resnap(); err != nil {
+			if err := e.resnap(op.Listeners, op.Age); err != nil {
 				return nil, fmt.Errorf("resnap: %w", err)
 			}
-			seen, err = e.readQueues(e.ctx)
+			after, err := e.readQueues(e.ctx)
 			if err != nil {
 				return nil, err
 			}
-			run.Count("op", "resnap")
+			// one publication per chain that received the new valset, in the order of the message ids
+			removed, _, added := diff(seen, after)
+			cur := ordered(seen)
+			handled := map[string]bool{}
+			for _, it := range added {
+				if it.kind != "valset" {
+					violate("C17:foreign-message", fmt.Sprintf("snapshot publication enqueued a %s message", it.kind))
+					continue
+				}
+				var pos []int
+				var next []*qitem
+				for i, o := range cur {
+					gone := false
+					for _, r := range removed {
+						if r.key == o.key && r.chain == it.chain {
+							gone = true
+							handled[r.key] = true
+						}
+					}
+					if gone {
+						pos = append(pos, i)
+					} else {
+						next = append(next, o)
+					}
+				}
+				cur = append(next, it)
+				steps = append(steps, fmt.Sprintf("(OPublish %s (Some %s), Ok, %s, %s, %s)", cs(chainRefs[it.chain]), emit.ZU(it.vid), coqPos(pos), itemsTerm([]*qitem{it}), idsTerm()))
+				run.Count("op", "publish")
+			}
+			for _, r := range removed {
+				if r.kind != "valset" {
+					violate("C17:call-removed", fmt.Sprintf("snapshot publication removed a %s message", r.kind))
+				}
+				if !handled[r.key] {
+					violate("C17:valset-update-dropped", fmt.Sprintf("snapshot publication removed the valset update of %s without putting a new one", chainRefs[r.chain]))
+				}
+			}
+			seen = after
+			checkQueues(after, when)
+			checkJobs(when)
+			run.Count("op", fmt.Sprintf("resnap listeners=%v aged=%v", op.Listeners, op.Age))
+			continue
+
+		case "block":
+			// the module's block hooks, as the module manager calls them
+			schedmodule.BeginBlocker(e.ctx)
+			berr := e.am.BeginBlock(e.ctx)
+			schedmodule.EndBlocker(e.ctx, e.k)
+			eerr := e.am.EndBlock(e.ctx)
+			after, err := e.readQueues(e.ctx)
+			if err != nil {
+				return nil, err
+			}
+			_, pos, added := diff(seen, after)
+			if berr != nil || eerr != nil || len(pos) > 0 || len(added) > 0 {
+				violate("C17:block-hook-acted", fmt.Sprintf("scheduler Begin/EndBlock: errors %v %v, %d queue messages removed, %d added", berr, eerr, len(pos), len(added)))
+			}
+			steps = append(steps, fmt.Sprintf("(OBlock, Ok, %s, %s, %s)", coqPos(pos), itemsTerm(added), idsTerm()))
+			seen = after
+			checkJobs(when)
+			run.Count("op", "block")
+			continue
+
+		case "genesis":
+			// export, empty the module's store, import: through the AppModule, as a genesis restart does
+			bz := e.am.ExportGenesis(e.ctx, e.f.Codec)
+			st := e.k.Store(e.ctx)
+			var keys [][]byte
+			it := st.Iterator(nil, nil)
+			for ; it.Valid(); it.Next() {
+				keys = append(keys, append([]byte{}, it.Key()...))
+			}
+			it.Close()
+			for _, k := range keys {
+				st.Delete(k)
+			}
+			e.am.InitGenesis(e.ctx, e.f.Codec, bz)
+			lost := 0
+			var keep []string
+			for _, id := range order {
+				c := jobs[id]
+				j, gerr := e.k.GetJob(e.ctx, id)
+				if gerr != nil || j == nil {
+					lost++
+					delete(jobs, id)
+					continue
+				}
+				if b2, _ := j.Marshal(); string(b2) != string(c.stored) {
+					violate("C17:job-mutated", fmt.Sprintf("job %q differs after a genesis export / import", id))
+				}
+				keep = append(keep, id)
+			}
+			order = keep
+			// nothing that was not there before may be there now
+			st2 := e.k.Store(e.ctx)
+			it2 := st2.Iterator(nil, nil)
+			n2 := 0
+			for ; it2.Valid(); it2.Next() {
+				n2++
+			}
+			it2.Close()
+			if n2 != len(keep) {
+				violate("C17:genesis-import-created", fmt.Sprintf("scheduler store holds %d keys after the import, %d known jobs survived", n2, len(keep)))
+			}
+			after, err := e.readQueues(e.ctx)
+			if err != nil {
+				return nil, err
+			}
+			_, pos, added := diff(seen, after)
+			steps = append(steps, fmt.Sprintf("(OGenesisRoundTrip, Ok, %s, %s, %s)", coqPos(pos), itemsTerm(added), idsTerm()))
+			seen = after
+			run.Count("genesis-round-trip", fmt.Sprintf("jobs-before=%d lost=%d", len(keys), lost))
 			continue
 
 		case "create":
@@ -539,10 +849,24 @@ func runHistory(run *emit.Run, hs *histSpec, tag string) (res *histResult, fatal
 				switch op.Path {
 				case "msg":
 					e.ensureAccount(e.ctx, owner)
-					_, cerr = e.ms.CreateJob(e.ctx, &schedtypes.MsgCreateJob{Job: e.mkJob(js, nil), Metadata: valsettypes.MsgMetadata{Creator: sdk.AccAddress(owner).String(), Signers: []string{sdk.AccAddress(owner).String()}}})
+					md, signer := e.metadata(owner, &op)
+					msg := &schedtypes.MsgCreateJob{Job: e.mkJob(js, nil), Metadata: md}
+					if aerr := e.admit(e.ctx, msg); aerr != nil {
+						cerr = fmt.Errorf("unauthorised: %w", aerr)
+						vb = false
+						if e.authorisedBy(owner, signer) && len(md.Creator) > 0 {
+							run.Count("create", "refused-although-authorised")
+						}
+						break
+					}
+					if !e.authorisedBy(owner, signer) {
+						violate("C17:create-not-authorised", fmt.Sprintf("MsgCreateJob for creator %x signed by %x was let through", owner, signer))
+					}
+					_, cerr = e.ms.CreateJob(e.ctx, msg)
 				case "wasm":
-					_, _, _, cerr = e.wasm.DispatchMsg(e.ctx, sdk.AccAddress(owner), "", bindingstypes.Message{CreateJob: &bindingstypes.CreateJob{Job: &bindingstypes.Job{
-						JobId: js.ID, ChainType: js.CType, ChainReferenceId: js.CRef, Definition: js.Def, Payload: js.Payload, PayloadModifiable: js.Mod, IsMEV: js.Mev}}})
+					cm, _ := json.Marshal(libwasm.CustomMessage{Scheduler: &bindingstypes.Message{CreateJob: &bindingstypes.CreateJob{Job: &bindingstypes.Job{
+						JobId: js.ID, ChainType: js.CType, ChainReferenceId: js.CRef, Definition: js.Def, Payload: js.Payload, PayloadModifiable: js.Mod, IsMEV: js.Mev}}}})
+					_, _, _, cerr = e.router.DispatchMsg(e.ctx, sdk.AccAddress(owner), "", wasmvmtypes.CosmosMsg{Custom: cm})
 				default:
 					cerr = e.k.AddNewJob(e.ctx, e.mkJob(js, owner))
 				}
@@ -585,16 +909,12 @@ func runHistory(run *emit.Run, hs *histSpec, tag string) (res *histResult, fatal
 			if err != nil {
 				return nil, err
 			}
-			nw := newItems(seen, after)
-			if len(nw) > 0 {
-				violate("C17:create-enqueued", fmt.Sprintf("create of %q put %d message(s) into a turnstone queue", js.ID, len(nw)))
-			}
-			var nwT []string
-			for _, it := range nw {
-				nwT = append(nwT, e.coqItem(it))
+			_, pos, nw := diff(seen, after)
+			if len(nw) > 0 || len(pos) > 0 {
+				violate("C17:create-enqueued", fmt.Sprintf("create of %q put %d message(s) into a turnstone queue and removed %d", js.ID, len(nw), len(pos)))
 			}
 			seen = after
-			steps = append(steps, fmt.Sprintf("(OCreate %s %s, %s, %s)", coqJob(e.mkJob(js, owner)), emit.Bool(vb), resTerm, emit.List(nwT)))
+			steps = append(steps, fmt.Sprintf("(OCreate %s %s, %s, %s, %s, %s)", coqJob(e.mkJob(js, owner)), emit.Bool(vb), resTerm, coqPos(pos), itemsTerm(nw), idsTerm()))
 			checkJobs(when)
 
 		case "exec":
@@ -606,26 +926,43 @@ func runHistory(run *emit.Run, hs *histSpec, tag string) (res *histResult, fatal
 					in = []byte{}
 				}
 			}
-			// ----- the environment's answers, computed on a branch of the state -----
-			pre, pick, pickOK := false, int64(-1), false
+			// ----- the environment's answers, computed on branches of the state -----
+			preT, pick, pickOK := "None", int64(-1), false
+			preFires := false
 			var pickErr error
 			stored, known := jobs[op.ID]
 			if j, gerr := e.k.GetJob(e.ctx, op.ID); gerr == nil && j != nil {
-				bctx, _ := e.ctx.CacheContext()
-				b0, err := e.readQueues(bctx)
-				if err != nil {
-					return nil, err
-				}
-				_ = e.k.PreJobExecution(bctx, j)
-				b1, err := e.readQueues(bctx)
-				if err != nil {
-					return nil, err
-				}
-				for _, it := range newItems(b0, b1) {
-					if it.kind == "valset" && chainRefs[it.chain] == j.Routing.ChainReferenceID {
-						pre = true
+				// (a) does the hook get as far as SendValsetMsgForChain, and with which valset id?  On a branch
+				// where the chain's queue is empty that function always puts its message.
+				actx, _ := e.ctx.CacheContext()
+				for c, ref := range chainRefs {
+					if ref != j.Routing.ChainReferenceID {
+						continue
+					}
+					msgs, err := e.f.ConsensusKeeper.GetMessagesFromQueue(actx, queueName(ref), 0)
+					if err != nil {
+						return nil, err
+					}
+					for _, m := range msgs {
+						if err := e.f.ConsensusKeeper.DeleteJob(actx, queueName(ref), m.GetId()); err != nil {
+							return nil, err
+						}
+					}
+					_ = e.k.PreJobExecution(actx, j)
+					a1, err := e.readQueues(actx)
+					if err != nil {
+						return nil, err
+					}
+					for _, it := range ordered(a1) {
+						if it.chain == c && it.kind == "valset" {
+							preT = "(Some " + emit.ZU(it.vid) + ")"
+							preFires = true
+						}
 					}
 				}
+				// (b) relayer selection for the call, after the real hook
+				bctx, _ := e.ctx.CacheContext()
+				_ = e.k.PreJobExecution(bctx, j)
 				a, _, perr := e.f.EvmKeeper.PickValidatorForMessage(bctx, j.Routing.ChainReferenceID, &xchain.JobRequirements{EnforceMEVRelay: j.EnforceMEVRelay})
 				pickErr = perr
 				if perr == nil {
@@ -660,26 +997,56 @@ func runHistory(run *emit.Run, hs *histSpec, tag string) (res *histResult, fatal
 				}()
 				switch op.Path {
 				case "msg":
-					e.ensureAccount(e.ctx, sender)
-					var r *schedtypes.MsgExecuteJobResponse
-					r, xerr = e.ms.ExecuteJob(octx, &schedtypes.MsgExecuteJob{JobID: op.ID, Payload: in, Metadata: valsettypes.MsgMetadata{Creator: sdk.AccAddress(sender).String(), Signers: []string{sdk.AccAddress(sender).String()}}})
-					if xerr == nil {
-						msgID, haveID = r.MessageID, true
+					if !op.NoAccount {
+						e.ensureAccount(e.ctx, sender)
 					}
+					hasAcct := len(sender) > 0 && e.k.VerifAccountKeeper().HasAccount(e.ctx, sender)
+					md, signer := e.metadata(sender, &op)
+					msg := &schedtypes.MsgExecuteJob{JobID: op.ID, Payload: in, Metadata: md}
+					authorised := true
+					if aerr := e.admit(octx, msg); aerr != nil {
+						authorised = false
+						xerr = fmt.Errorf("unauthorised: %w", aerr)
+					} else {
+						if !e.authorisedBy(sender, signer) {
+							violate("C17:execute-not-authorised", fmt.Sprintf("MsgExecuteJob for creator %x signed by %x was let through", sender, signer))
+						}
+						// baseapp recovers a panic of the handler and fails the transaction
+						func() {
+							defer func() {
+								if r := recover(); r != nil {
+									xerr = fmt.Errorf("panic: %v", r)
+								}
+							}()
+							var r *schedtypes.MsgExecuteJobResponse
+							r, xerr = e.ms.ExecuteJob(octx, msg)
+							if xerr == nil {
+								msgID, haveID = r.MessageID, true
+							}
+						}()
+					}
+					run.Count("msg-execute", fmt.Sprintf("signed-by-creator=%v granted=%v authorised=%v account=%v", op.Signer == "", op.Granted, authorised, hasAcct))
 					suppliedJSON, suppliedNil = in, in == nil
 					effSender, effContract, cNil = sender, nil, true
-					opTerm = fmt.Sprintf("(OExec (mkExec %s %s %s None %s %s %s))", cs(op.ID), cob(in, in == nil), cob(sender, false), emit.Bool(pre), pickT, emit.Bool(op.Atomic))
+					opTerm = fmt.Sprintf("(OMsgExec %s %s %s %s %s %s %s %s)", cb(sender), emit.Bool(authorised), emit.Bool(hasAcct), cs(op.ID), cob(in, in == nil), preT, pickT, emit.Bool(op.Atomic))
 				case "wasm":
-					_, _, _, xerr = e.wasm.DispatchMsg(octx, sdk.AccAddress(contract), "", bindingstypes.Message{ExecuteJob: &bindingstypes.ExecuteJob{JobID: op.ID, Sender: "ignored", Payload: in}})
+					// the contract's custom message, as JSON, through the libwasm router; its body names a sender of its own choice
+					cm, _ := json.Marshal(libwasm.CustomMessage{Scheduler: &bindingstypes.Message{ExecuteJob: &bindingstypes.ExecuteJob{JobID: op.ID, Sender: op.Claimed, Payload: in}}})
+					_, _, _, xerr = e.router.DispatchMsg(octx, sdk.AccAddress(contract), "", wasmvmtypes.CosmosMsg{Custom: cm})
 					suppliedJSON = wrapJSON(in)
 					effSender, effContract = contract, contract
-					opTerm = fmt.Sprintf("(OWasmExec %s %s %s %s %s %s)", cs(op.ID), cb(in), cb(contract), emit.Bool(pre), pickT, emit.Bool(op.Atomic))
+					opTerm = fmt.Sprintf("(OWasmExec %s %s %s %s %s %s %s)", cs(op.ID), cb(in), cb(contract), cs(op.Claimed), preT, pickT, emit.Bool(op.Atomic))
 				case "legacy":
-					lj, _ := json.Marshal(map[string]any{"job_id": op.ID, "payload": in})
-					_, _, _, xerr = e.legacy.DispatchMsg(octx, sdk.AccAddress(contract), "", wasmvmtypes.CosmosMsg{Custom: lj})
+					body := map[string]any{"job_id": op.ID, "payload": in}
+					if op.Claimed != "" {
+						body["sender"] = op.Claimed
+						body["contract"] = op.Claimed
+					}
+					lj, _ := json.Marshal(body)
+					_, _, _, xerr = e.router.DispatchMsg(octx, sdk.AccAddress(contract), "", wasmvmtypes.CosmosMsg{Custom: lj})
 					suppliedJSON = wrapJSON(in)
 					effSender, effContract = contract, contract
-					opTerm = fmt.Sprintf("(OLegacyExec %s %s %s %s %s %s)", cs(op.ID), cb(in), cb(contract), emit.Bool(pre), pickT, emit.Bool(op.Atomic))
+					opTerm = fmt.Sprintf("(OLegacyExec %s %s %s %s %s %s %s)", cs(op.ID), cb(in), cb(contract), cs(op.Claimed), preT, pickT, emit.Bool(op.Atomic))
 				default:
 					var s, c sdk.AccAddress
 					if !op.SNil {
@@ -698,7 +1065,7 @@ func runHistory(run *emit.Run, hs *histSpec, tag string) (res *histResult, fatal
 					haveID = xerr == nil
 					suppliedJSON, suppliedNil = in, in == nil
 					effSender, effContract, sNil, cNil = sender, contract, op.SNil, op.CNil
-					opTerm = fmt.Sprintf("(OExec (mkExec %s %s %s %s %s %s %s))", cs(op.ID), cob(in, in == nil), cob(sender, op.SNil), cob(contract, op.CNil), emit.Bool(pre), pickT, emit.Bool(op.Atomic))
+					opTerm = fmt.Sprintf("(OExec (mkExec %s %s %s %s %s %s %s))", cs(op.ID), cob(in, in == nil), cob(sender, op.SNil), cob(contract, op.CNil), preT, pickT, emit.Bool(op.Atomic))
 				}
 			}()
 			if op.Atomic && xerr == nil {
@@ -717,18 +1084,37 @@ func runHistory(run *emit.Run, hs *histSpec, tag string) (res *histResult, fatal
 				}
 			}
 			run.Count("exec/"+op.Path, resTerm)
-			run.Count("hook-valset-update", fmt.Sprintf("pre=%v ok=%v atomic=%v", pre, xerr == nil, op.Atomic))
+			if op.Path == "wasm" || op.Path == "legacy" {
+				kind := "other-address"
+				switch {
+				case op.Claimed == "":
+					kind = "absent"
+				case op.Claimed == sdk.AccAddress(contract).String():
+					kind = "own-address"
+				default:
+					if _, berr := sdk.AccAddressFromBech32(op.Claimed); berr != nil {
+						kind = "not-an-address"
+					}
+				}
+				run.Count("message-names-sender", fmt.Sprintf("%s/%s ok=%v", op.Path, kind, xerr == nil))
+			}
 			run.Count("caller-bytes", fmt.Sprintf("%s/%d", op.Path, len(sender)+len(contract)*map[bool]int{true: 1, false: 0}[op.Path != "keeper"]))
 			after, err := e.readQueues(e.ctx)
 			if err != nil {
 				return nil, err
 			}
-			nw := newItems(seen, after)
-			var nwT []string
+			removed, pos, nw := diff(seen, after)
+			run.Count("hook-valset-update", fmt.Sprintf("reaches-send=%v put=%v replaced=%d ok=%v atomic=%v", preFires, func() bool {
+				for _, it := range nw {
+					if it.kind == "valset" {
+						return true
+					}
+				}
+				return false
+			}(), len(removed), xerr == nil, op.Atomic))
 			var newCalls []*qitem
 			nValset := 0
 			for _, it := range nw {
-				nwT = append(nwT, e.coqItem(it))
 				switch it.kind {
 				case "call":
 					newCalls = append(newCalls, it)
@@ -738,7 +1124,17 @@ func runHistory(run *emit.Run, hs *histSpec, tag string) (res *histResult, fatal
 					violate("C17:foreign-message", fmt.Sprintf("execute of %q enqueued an unexpected message kind", op.ID))
 				}
 			}
+			for _, r := range removed {
+				if r.kind != "valset" || !known || chainRefs[r.chain] != stored.spec.CRef {
+					violate("C17:hook-removed-foreign", fmt.Sprintf("execute of %q removed a %s message from the queue of %s", op.ID, r.kind, chainRefs[r.chain]))
+				}
+			}
+			if len(removed) > 0 && nValset == 0 {
+				violate("C17:valset-update-dropped", fmt.Sprintf("execute of %q removed %d valset update(s) without putting a new one", op.ID, len(removed)))
+			}
 			// ----- direct oracle on the real state -----
+			// the REAL caller: the creator behind the transaction (msg server), the dispatching contract (both wasm
+			// messengers) -- whatever the message body says; for keeper-level calls what the Go caller passed
 			caller := effSender
 			if sNil {
 				caller = effContract
@@ -751,8 +1147,8 @@ func runHistory(run *emit.Run, hs *histSpec, tag string) (res *histResult, fatal
 				if len(newCalls) > 0 {
 					violate("C17:failed-execute-enqueued", fmt.Sprintf("execute of %q failed (%v) but %d contract call(s) were enqueued", op.ID, xerr, len(newCalls)))
 				}
-				if op.Atomic && len(nw) > 0 {
-					violate("C17:failed-tx-left-messages", fmt.Sprintf("failed transactional execute of %q left %d message(s)", op.ID, len(nw)))
+				if op.Atomic && (len(nw) > 0 || len(pos) > 0) {
+					violate("C17:failed-tx-left-messages", fmt.Sprintf("failed transactional execute of %q left %d message(s), removed %d", op.ID, len(nw), len(pos)))
 				}
 			} else {
 				okOps++
@@ -769,6 +1165,9 @@ func runHistory(run *emit.Run, hs *histSpec, tag string) (res *histResult, fatal
 					}
 					if nValset > 1 || len(nw) != 1+nValset {
 						violate("C17:extra-messages", fmt.Sprintf("execute of %q enqueued %d messages (%d valset updates)", op.ID, len(nw), nValset))
+					}
+					if nw[len(nw)-1] != it {
+						violate("C17:call-not-last", fmt.Sprintf("execute of %q: the contract call is not the last message enqueued", op.ID))
 					}
 					for _, o := range nw {
 						if o.chain != it.chain {
@@ -790,6 +1189,13 @@ func runHistory(run *emit.Run, hs *histSpec, tag string) (res *histResult, fatal
 					if it.call.ExecutionRequirements.EnforceMEVRelay != js.Mev {
 						violate("C17:mev-flag", fmt.Sprintf("call of %q has MEV flag %v", op.ID, it.call.ExecutionRequirements.EnforceMEVRelay))
 					}
+					// the identity fields of the call name the real caller
+					if op.Path != "keeper" {
+						wantC := effContract
+						if string(it.call.SenderAddress) != string(caller) || string(it.call.ContractAddress) != string(wantC) {
+							violate("C17:wrong-caller-identity", fmt.Sprintf("execute of %q requested by %x (%s): the call names sender %x, contract %x", op.ID, caller, op.Path, []byte(it.call.SenderAddress), []byte(it.call.ContractAddress)))
+						}
+					}
 					base := []byte(js.Payload)
 					usedSupplied := false
 					if !suppliedNil && js.Mod {
@@ -809,26 +1215,13 @@ func runHistory(run *emit.Run, hs *histSpec, tag string) (res *histResult, fatal
 					} else if len(caller) > 32 {
 						violate("C17:long-caller", fmt.Sprintf("execute of %q by a %d-byte caller succeeded", op.ID, len(caller)))
 					} else if string(it.call.Payload) != string(append(append([]byte{}, want...), leftPad32(caller)...)) {
-						violate("C17:wrong-payload", fmt.Sprintf("job %q (supplied used: %v): call payload %x, expected %x ++ pad32(%x)", op.ID, usedSupplied, it.call.Payload, want, caller))
+						violate("C17:wrong-payload", fmt.Sprintf("job %q requested by %x through %s (supplied used: %v): call payload %x, expected %x ++ pad32(%x)", op.ID, caller, op.Path, usedSupplied, it.call.Payload, want, caller))
 					}
 				}
 			}
-			// calls never disappear or change
-			for k, it := range after {
-				if it.kind == "call" {
-					if old, ok := calls[k]; ok && old != it.raw {
-						violate("C17:call-changed", fmt.Sprintf("queued call %s changed %s", k, when))
-					}
-					calls[k] = it.raw
-				}
-			}
-			for k := range calls {
-				if _, ok := after[k]; !ok {
-					violate("C17:call-removed", fmt.Sprintf("queued call %s disappeared %s", k, when))
-				}
-			}
+			checkQueues(after, when)
 			seen = after
-			steps = append(steps, fmt.Sprintf("(%s, %s, %s)", opTerm, resTerm, emit.List(nwT)))
+			steps = append(steps, fmt.Sprintf("(%s, %s, %s, %s, %s)", opTerm, resTerm, coqPos(pos), itemsTerm(nw), idsTerm()))
 			checkJobs(when)
 		}
 	}
@@ -952,6 +1345,58 @@ func genHistory(r *rand.Rand, hostile bool) *histSpec {
 	hs := &histSpec{Env: genEnv(r)}
 	accounts := [][]byte{randAddr(r, 20), randAddr(r, 20), randAddr(r, 32), randAddr(r, 33), randAddr(r, 1)}
 	contracts := [][]byte{randAddr(r, 32), randAddr(r, 32), randAddr(r, 20)}
+	ghost := append([]byte{0x9b}, randAddr(r, 19)...) // an address that never gets an account
+	// who signs a transaction message: mostly its creator; sometimes somebody else, with or without a fee grant of the creator
+	signing := func(op *opSpec, creator string) {
+		if k := r.Intn(7); k == 0 || hostile && k < 3 {
+			other := hex.EncodeToString(accounts[r.Intn(3)])
+			if other != creator {
+				op.Signer = other
+				op.Granted = r.Intn(3) == 0
+			}
+		}
+	}
+	// near misses of an id: the same characters in another case, with blanks around, with look-alike or invisible runes
+	nearMiss := func(id string) string {
+		if id == "" {
+			return " "
+		}
+		switch r.Intn(9) {
+		case 0:
+			return strings.ToUpper(id)
+		case 1:
+			return strings.ToUpper(id[:1]) + id[1:]
+		case 2:
+			return " " + id
+		case 3:
+			return id + " "
+		case 4:
+			return id + "\t"
+		case 5:
+			return id + "\u200b" // zero width space
+		case 6:
+			return string(rune(0xff00+int(id[0])-0x20)) + id[1:] // full-width first character
+		case 7:
+			return id + "\n"
+		default:
+			return "\u00a0" + id // no-break space
+		}
+	}
+	// what a contract's message says about its sender
+	claim := func(contract []byte) string {
+		switch r.Intn(8) {
+		case 0:
+			return ""
+		case 1:
+			return "ignored"
+		case 2:
+			return sdk.AccAddress(contract).String()
+		case 3:
+			return sdk.AccAddress(contracts[r.Intn(len(contracts))]).String()
+		default:
+			return sdk.AccAddress(accounts[r.Intn(3)]).String()
+		}
+	}
 	pick := func(pool []string, good int) string {
 		if !hostile && r.Intn(8) != 0 {
 			return pool[r.Intn(good)]
@@ -976,6 +1421,9 @@ func genHistory(r *rand.Rand, hostile bool) *histSpec {
 		if hostile && r.Intn(3) == 0 || r.Intn(14) == 0 {
 			id = ids[r.Intn(len(ids))]
 		}
+		if len(made) > 0 && (r.Intn(12) == 0 || hostile && r.Intn(4) == 0) {
+			id = nearMiss(made[r.Intn(len(made))].id)
+		}
 		js := &jobSpec{ID: id, CType: "evm", CRef: chainRefs[r.Intn(2)], Def: pick(defPool, nGoodDef), Payload: pick(payPool, nGoodPay), Mod: r.Intn(5) < 3}
 		switch r.Intn(24) {
 		case 0, 1:
@@ -998,6 +1446,7 @@ func genHistory(r *rand.Rand, hostile bool) *histSpec {
 		case 0:
 			op.Path = "msg"
 			op.Creator = hex.EncodeToString(accounts[r.Intn(len(accounts))])
+			signing(&op, op.Creator)
 		case 1:
 			op.Path = "wasm"
 			op.Creator = hex.EncodeToString(contracts[r.Intn(len(contracts))])
@@ -1020,6 +1469,9 @@ func genHistory(r *rand.Rand, hostile bool) *histSpec {
 			target = made[r.Intn(len(made))]
 		}
 		op := opSpec{Kind: "exec", ID: target.id, Atomic: r.Intn(2) == 0}
+		if r.Intn(16) == 0 || hostile && r.Intn(5) == 0 {
+			op.ID = nearMiss(target.id)
+		}
 		path := r.Intn(4)
 		if !target.mod && !hostile && r.Intn(4) != 0 {
 			path = 3 * r.Intn(2) // a fixed job can only be run without a payload: msg server or keeper
@@ -1030,6 +1482,10 @@ func genHistory(r *rand.Rand, hostile bool) *histSpec {
 			op.Sender = hex.EncodeToString(accounts[r.Intn(len(accounts))])
 			if !hostile && r.Intn(3) != 0 {
 				op.Sender = hex.EncodeToString(accounts[r.Intn(3)])
+			}
+			signing(&op, op.Sender)
+			if r.Intn(20) == 0 {
+				op.Sender, op.NoAccount = hex.EncodeToString(ghost), true
 			}
 			switch k := r.Intn(4); {
 			case k == 0 || !target.mod && k < 3:
@@ -1042,6 +1498,7 @@ func genHistory(r *rand.Rand, hostile bool) *histSpec {
 		case 1:
 			op.Path = "wasm"
 			op.Contract = hex.EncodeToString(contracts[r.Intn(len(contracts))])
+			op.Claimed = claim(unhex(op.Contract))
 			op.In = string(randAddr(r, 1+r.Intn(40)))
 			if r.Intn(10) == 0 {
 				op.In = ""
@@ -1052,6 +1509,7 @@ func genHistory(r *rand.Rand, hostile bool) *histSpec {
 		case 2:
 			op.Path = "legacy"
 			op.Contract = hex.EncodeToString(contracts[r.Intn(len(contracts))])
+			op.Claimed = claim(unhex(op.Contract))
 			op.In = string(randAddr(r, r.Intn(40)))
 			if r.Intn(14) == 0 {
 				op.ID = ""
@@ -1080,11 +1538,23 @@ func genHistory(r *rand.Rand, hostile bool) *histSpec {
 		}
 	}
 	for len(hs.Ops) < nOps {
-		switch k := r.Intn(20); {
-		case k < 4:
+		switch k := r.Intn(40); {
+		case k < 8:
 			genCreate(r.Intn(2) == 0)
-		case k < 6:
-			hs.Ops = append(hs.Ops, opSpec{Kind: "resnap"})
+		case k < 12:
+			ls := r.Intn(2) == 0
+			hs.Ops = append(hs.Ops, opSpec{Kind: "resnap", Listeners: ls, Age: ls && r.Intn(3) != 0})
+		case k == 12:
+			hs.Ops = append(hs.Ops, opSpec{Kind: "block"})
+		case k == 13 && len(made) > 0:
+			// the module's genesis is exported and imported: every job is gone afterwards
+			hs.Ops = append(hs.Ops, opSpec{Kind: "genesis"})
+			made, used = nil, map[string]bool{}
+		case k < 18 && len(made) > 0:
+			// valset churn: a run, a new snapshot, the same run again -- the second hook replaces the update of the first
+			genExec()
+			x := hs.Ops[len(hs.Ops)-1]
+			hs.Ops = append(hs.Ops[:len(hs.Ops)-1], opSpec{Kind: "resnap", Listeners: r.Intn(3) == 0, Age: r.Intn(2) == 0}, x, opSpec{Kind: "resnap"}, x)
 		default:
 			genExec()
 		}
@@ -1129,7 +1599,10 @@ func TestCorr(t *testing.T) {
 	run.Rule("fresh integration fixture per history (3 EVM chains, 2-4 validators with drawn MEV traits / relayer fees, so that relayer selection fails on some chains); " +
 		"4-10 requests per history: create (msg server | wasm binding | keeper; duplicate, invalid, other-chain, MEV jobs; JSON / hex / non-hex / odd-length payload pool; stored and supplied documents with extra members: address / abi inside a payload, hexPayload inside a definition, unknown and duplicated members, any order), " +
 		"execute (msg server account caller | wasm binding | legacy binding | keeper with 0/20/31/32/33/64-byte sender or contract, nil or empty or supplied payload, transactional or not), " +
-		"resnap (new snapshot not yet announced => just-in-time valset update). 1 history in 6 is drawn from the hostile pools only. " +
+		"resnap (new snapshot, announced by the snapshot listener or not yet announced => just-in-time valset update replacing the queued one), block (the module's Begin/EndBlock), genesis (ExportGenesis, emptied store, InitGenesis through the AppModule). " +
+		"Transaction messages pass ValidateBasic and the VerifyAuthorisedSignatureDecorator first (signed by the creator | by another account with / without a fee grant of the creator; a creator without account); " +
+		"contract messages go as JSON through the libwasm router and name a sender of their own choice (absent | junk | own address | another contract | an account); " +
+		"job ids of creates and lookups include near misses of existing ids (other case, blanks, tab, newline, zero-width and no-break space, full-width first character). 1 history in 6 is drawn from the hostile pools only. " +
 		"non-trivial = at least one accepted and one rejected request. Plus unit cases for injectSenderIntoPayload, common.FromHex and the binding's wrapping.")
 	search := os.Getenv("VERIF_SEARCH") == "1"
 
